@@ -112,10 +112,10 @@ CLAIMED = {
             technique="Coq proof (pack/unpack round trip by induction, rational rounding bound) + extracted-model correspondence + end-to-end normalisation oracle on real runs", design="§5 C07"),
  "C12": dict(text="Coq theorems (C12/Props.v): delim_chunk_invariant - for ANY cutting of a text into pieces (empty ones, a CR LF pair cut in two, pieces ending in any of CPython's line boundaries) DelimSource's re-assembly equals splitlines of the whole text "
                   "(inductive invariant relating the pending line / CR flag to a character automaton); utf8_chunk_invariant - grouping bytes into characters with one decoder state carried across chunks is chunking-independent (per-chunk decoding refuted); "
-                  "disk_roundtrip - CR/LF-free lines written by DiskSink in any batching are read back identically; split_join, libsvm_roundtrip - the LibSVM/Manik grammar parses what the printer wrote; csv_roundtrip - the csv automaton parses RFC-4180 minimal quoting back to the cells; "
+                  "disk_roundtrip - CR/LF-free lines written by DiskSink in any batching are read back identically; split_join, libsvm_roundtrip - the LibSVM/Manik grammar parses what the printer wrote; csv_roundtrip - the csv automaton parses RFC-4180 minimal quoting back to the cells; arff_dense_line_roundtrip - the csv automaton with ArffLineReader's dialect (one quote character, backslash escapes, doublequote off, skipinitialspace on) parses a data line written the Weka/OpenML way back to its values; "
                   "source_constants - the separators/terminators/strip sets and the decoder shape are those the translator extracted from the source on this run. Extracted models are compared with DelimSource, _byte_it_ (identity/gzip/deflate, chunk sizes 1-40), "
                   "DiskSink/DiskSource (plain/.gz), LibsvmReader/ManikReader and CsvReader; a table oracle compares printed tables with the parsed rows for LibSVM, Manik, CSV and ARFF dense/sparse in the Weka/OpenML dialect and in variant spellings (same table or an error).",
-            note="PARTIAL for ARFF: there is no Gallina model of ArffReader (regex splitting, csv dialect detection, fallback parser); ARFF is decided by the table oracle only. Trusted: Coq kernel, translator (statement templates, fails closed), extraction+driver, harness printers "
+            note="PARTIAL for ARFF: dense data lines with one quote character have a model and a theorem (compared with Python's csv module under the reader's dialect and with ArffLineReader); the header parser (regex splitting), the dialect detection, the fallback parser for mixed quote styles, sparse lines and the encoders have no Gallina model and are decided by the table oracle only. Trusted: Coq kernel, translator (statement templates, fails closed), extraction+driver, harness printers "
                  "(Weka quoting, RFC-4180), zlib/gzip, the codec's code-point arithmetic, Python's csv module (re-implemented for one dialect and compared), int()/float(). A line handed to DiskSink contains no CR/LF; an embedded CSV line break reads back as \\n. "
                  "Open findings: a quoted '?' value reads as missing; tab separated ARFF with a comma inside a quoted value can be misread.",
             technique="Coq proof (automaton invariants, round-trip inductions) over translator-checked constants + extracted-model correspondence + printed-table oracle", design="§5 C12"),
